@@ -105,8 +105,12 @@ func (i *inspect) indexes(ctx context.Context, t *schema.Table) error {
 	if err != nil {
 		return fmt.Errorf("sqlite: querying %q indexes: %w", t.Name, err)
 	}
-	if err := i.addIndexes(t, rows); err != nil {
+	pk, err := i.addIndexes(t, rows)
+	if err != nil {
 		return fmt.Errorf("sqlite: scan %q indexes: %w", t.Name, err)
+	}
+	if err := i.pkOrder(ctx, t, pk); err != nil {
+		return err
 	}
 	for _, idx := range t.Indexes {
 		if err := i.indexInfo(ctx, t, idx); err != nil {
@@ -116,8 +120,56 @@ func (i *inspect) indexes(ctx context.Context, t *schema.Table) error {
 	return nil
 }
 
-// addIndexes scans the rows and adds the indexes to the table.
-func (i *inspect) addIndexes(t *schema.Table, rows *sql.Rows) error {
+// pkOrder sets the order of the columns of a composite primary key (the table
+// columns are scanned by their position) by the order of its automatic index.
+func (i *inspect) pkOrder(ctx context.Context, t *schema.Table, pk string) error {
+	if t.PrimaryKey == nil || len(t.PrimaryKey.Parts) < 2 {
+		return nil
+	}
+	// The primary key of a WITHOUT ROWID table has no entry in
+	// sqlite_master, and is therefore not returned by indexesQuery.
+	if pk == "" && sqlx.Has(t.Attrs, &WithoutRowID{}) {
+		rows, err := i.QueryContext(ctx, fmt.Sprintf("SELECT `name` FROM pragma_index_list('%s') WHERE `origin` = 'pk'", t.Name))
+		if err != nil {
+			return fmt.Errorf("sqlite: querying %q primary-key index: %w", t.Name, err)
+		}
+		if err := sqlx.ScanOne(rows, &pk); err != nil {
+			return fmt.Errorf("sqlite: scanning %q primary-key index: %w", t.Name, err)
+		}
+	}
+	if pk == "" {
+		return nil
+	}
+	rows, err := i.QueryContext(ctx, fmt.Sprintf(indexColumnsQuery, pk))
+	if err != nil {
+		return fmt.Errorf("sqlite: querying %q primary-key columns: %w", t.Name, err)
+	}
+	defer rows.Close()
+	var parts []*schema.IndexPart
+	for rows.Next() {
+		var (
+			desc sql.NullBool
+			name sql.NullString
+		)
+		if err := rows.Scan(&name, &desc); err != nil {
+			return fmt.Errorf("sqlite: scanning primary-key columns: %w", err)
+		}
+		for _, p := range t.PrimaryKey.Parts {
+			if p.C != nil && p.C.Name == name.String {
+				p.SeqNo = len(parts) + 1
+				parts = append(parts, p)
+			}
+		}
+	}
+	if len(parts) == len(t.PrimaryKey.Parts) {
+		t.PrimaryKey.Parts = parts
+	}
+	return rows.Err()
+}
+
+// addIndexes scans the rows and adds the indexes to the table. It
+// returns the name of the automatic index of the primary key, if any.
+func (i *inspect) addIndexes(t *schema.Table, rows *sql.Rows) (pk string, err error) {
 	defer rows.Close()
 	for rows.Next() {
 		var (
@@ -125,9 +177,10 @@ func (i *inspect) addIndexes(t *schema.Table, rows *sql.Rows) error {
 			name, origin, stmt sql.NullString
 		)
 		if err := rows.Scan(&name, &uniq, &origin, &partial, &stmt); err != nil {
-			return err
+			return "", err
 		}
 		if origin.String == "pk" {
+			pk = name.String
 			continue
 		}
 		idx := &schema.Index{
@@ -142,7 +195,7 @@ func (i *inspect) addIndexes(t *schema.Table, rows *sql.Rows) error {
 		if partial {
 			i := strings.Index(stmt.String, "WHERE")
 			if i == -1 {
-				return fmt.Errorf("missing partial WHERE clause in: %s", stmt.String)
+				return "", fmt.Errorf("missing partial WHERE clause in: %s", stmt.String)
 			}
 			idx.Attrs = append(idx.Attrs, &IndexPredicate{
 				P: strings.TrimSpace(stmt.String[i+5:]),
@@ -150,7 +203,7 @@ func (i *inspect) addIndexes(t *schema.Table, rows *sql.Rows) error {
 		}
 		t.Indexes = append(t.Indexes, idx)
 	}
-	return nil
+	return pk, nil
 }
 
 var (
